@@ -193,7 +193,7 @@ structure Row where
     handler for the failure; otherwise the automaton ends in the accepting state that records what
     really happened (the protocols' own events, the slots of the skeleton, play no part) -/
 def rowOk (F : Facts14) (x : Row) : Bool :=
-  let r := skeleton F x.noneOk x.noneErr x.transport x.stage x.kind x.co x.ro
+  let r := skeleton F (F.proc .single) x.noneOk x.noneErr x.transport x.stage x.kind x.co x.ro
   let steps := unslot r.steps
   let tr := truth ⟨x.stage, x.kind, false⟩ x.co x.ro
   (r.escaped == (tr.serFail && x.transport == .serverBase))
